@@ -172,11 +172,15 @@ def faulty_class():
 class World:
     """n real nodes + the objects standing for ids >= n"""
 
-    def __init__(self, n, cls=None):
+    def __init__(self, n, cls=None, inter=None):
         import bigtree
         cls = cls or faulty_class()
         _ARM["kind"] = _ARM["point"] = None
         self.n = n
+        # interludes: {index of an op (as str): variant} - just before that op a library call on OTHER, fresh objects
+        # fails (list_to_binarytree on a list it refuses half-way).  The model never sees it: it must not matter.
+        self.inter = dict(inter or {})
+        self.count = 0
         self.nodes = [cls(str(i)) for i in range(n)]
         self.others = {}
         self._plain = bigtree.Node
@@ -197,8 +201,32 @@ class World:
             return "-"
         return str(self.ids.get(id(x), "?"))
 
+    def interlude(self, variant):
+        import bigtree
+        try:
+            if variant == 0:
+                bigtree.list_to_binarytree([1, 2, 3, None, 5])
+            elif variant == 1:
+                bigtree.list_to_binarytree([])
+            else:
+                cnt = [0]
+
+                class Raising(bigtree.BinaryNode):
+                    def __init__(self, *a, **kw):
+                        cnt[0] += 1
+                        if cnt[0] == 3:
+                            raise HookFault("constructor of a user node type fails")
+                        super().__init__(*a, **kw)
+                bigtree.list_to_binarytree([1, 2, 3, 4], node_type=Raising)
+        except Exception:
+            pass
+
     def apply(self, op):
         """perform one op on the real objects; returns True (accepted) / False (raised)"""
+        var = self.inter.get(str(self.count))
+        self.count += 1
+        if var is not None:
+            self.interlude(var)
         k, v = op[0], self.nodes[op[1]]
         _ARM["op"] = op      # the class of the exception a raising hook throws is a function of the op
         try:
@@ -294,7 +322,7 @@ def impl_history(data, assertions=None) -> str:
     parts = []
     try:
         with _Assertions(on), _Watchdog():
-            w = World(data["n"])
+            w = World(data["n"], inter=data.get("inter"))
             for op in data["ops"]:
                 ok = w.apply(op)
                 parts.append(("ok " if ok else "rej ") + w.dump())
@@ -330,7 +358,7 @@ def oracle_c02(data, assertions=None):
     k, op = -1, ["?"]
     try:
         with _Assertions(on), _Watchdog():
-            w = World(data["n"])
+            w = World(data["n"], inter=data.get("inter"))
             for k, op in enumerate(data["ops"]):
                 before_raw = w.raw()
                 before = w.snapshot()
@@ -493,7 +521,7 @@ def oracle_history(data):
 
 def _oracle_history_body(data):
     msgs = []
-    w = World(data["n"])
+    w = World(data["n"], inter=data.get("inter"))
     msgs += _wf_messages(w, "init")
     for k, op in enumerate(data["ops"]):
         before = [(p, list(c)) for p, c in w.snapshot()]
@@ -723,7 +751,13 @@ def gen_histories(rng, tier, fault_rate=0.25):
             ops = clearing_history(rng, n, length, fault_rate)
         else:
             ops = random_history(rng, n, length, fault_rate)
-        out.append({"cls": "binary", "n": n, "asrt": 1, "ops": ops})
+        d = {"cls": "binary", "n": n, "asrt": 1, "ops": ops}
+        out.append(d)
+    # a separate stream (own PRNG, so the histories above are what they were): some histories get interludes
+    r2 = random.Random(rng.random())
+    for d in out:
+        if d["ops"] and r2.random() < 0.25:
+            d["inter"] = {str(r2.randrange(len(d["ops"]))): r2.randrange(3) for _ in range(r2.choice([1, 1, 2]))}
     return out
 
 
@@ -763,6 +797,12 @@ def corpus():
                                           ["C", 2, [0, None], "none"], ["C", 2, [2, None], "none"], ["C", 0, [3, None], "none"],
                                           ["C", 0, [1], "none"], ["C", 0, [1, 2, None], "none"], ["C", 0, None, "none"],
                                           ["C", 0, [], "none"], ["P", 1, 4, "none"], ["P", 1, 5, "none"]]})
+    # seeded C11-m10 (a failing list_to_binarytree leaves the module-level ASSERTIONS switched off): after the
+    # interlude every invalid assignment must still be refused
+    for var in (0, 2):
+        c.append({"cls": "binary", "n": 3, "asrt": 1, "inter": {"1": var},
+                  "ops": [["P", 1, 0, "none"], ["L", 0, 4, "none"], ["P", 0, 1, "none"], ["C", 2, [2, None], "none"],
+                          ["C", 0, [1, 1], "none"], ["R", 2, 3, "none"]]})
     # sort: only with two children
     c.append({"cls": "binary", "n": 3, "asrt": 1, "ops": [["P", 1, 0, "none"], ["S", 0, "s"], ["P", 2, 0, "none"], ["S", 0, "s"], ["S", 0, "k"],
                                           ["S", 0, "s"]]})
@@ -822,7 +862,7 @@ def accepted_subhistory(data):
     """the ops of the history that the REAL code accepts with the checks on, in order (C20 domain);
     rejected ops change nothing (C02), so dropping them leaves the accepted ones accepted"""
     with _Assertions(True):
-        w = World(data["n"])
+        w = World(data["n"], inter=data.get("inter"))
         keep = [op for op in data["ops"] if w.apply(op)]
     return dict(data, ops=keep)
 
